@@ -308,6 +308,56 @@ func govcRunOutbound(levels []byte, acks []govcAck) (bad string) {
 	return ""
 }
 
+// Publishes accepted while offline go out on the first connection, in order per level, and not as duplicates.
+func govcRunOfflineFirst(levels []byte) (bad string) {
+	defer func() {
+		if r := recover(); r != nil {
+			bad = fmt.Sprint("panic: ", r)
+		}
+	}()
+	conn2 := &govcConn{reads: [][]byte{{typeCONNACK << 4, 2, 0, 0}}}
+	dials := 0
+	c, err := VolatileSession("govc", &Config{Dialer: func(context.Context) (net.Conn, error) {
+		dials++
+		if dials == 1 {
+			return conn2, nil
+		}
+		return nil, errors.New("no more connections")
+	}, AtLeastOnceMax: 10, ExactlyOnceMax: 10})
+	if err != nil {
+		return err.Error()
+	}
+	var want []byte
+	var wantEO []byte
+	nAL, nEO := 0, 0
+	for k, l := range levels {
+		msg := fmt.Sprintf("m%d", k)
+		var err error
+		if l == 1 {
+			_, err = c.PublishAtLeastOnce([]byte(msg), "t")
+			want = append(want, govcOutPublish(1, false, uint16(0x8000+nAL), msg)...)
+			nAL++
+		} else {
+			_, err = c.PublishExactlyOnce([]byte(msg), "t")
+			wantEO = append(wantEO, govcOutPublish(2, false, uint16(0xc000+nEO), msg)...)
+			nEO++
+		}
+		if err != nil {
+			return fmt.Sprintf("publish %d while offline refused: %v", k, err)
+		}
+	}
+	want = append(want, wantEO...)
+	c.ReadSlices() // dials: CONNECT, CONNACK, first transmission of the backlog, then the script ends
+	var sent []byte
+	if len(conn2.wire) >= 2 && conn2.wire[0]>>4 == typeCONNECT && len(conn2.wire) >= 2+int(conn2.wire[1]) {
+		sent = conn2.wire[2+int(conn2.wire[1]):]
+	}
+	if !bytes.Equal(sent, want) {
+		return fmt.Sprintf("publish levels %v while offline, then the first connection: sent %x, reference %x", levels, sent, want)
+	}
+	return ""
+}
+
 // Bounded search on the real client: up to 3 publishes of either level, up to 4 acknowledgement packets over
 // {PUBACK, PUBREC, PUBCOMP} x {first, second identifier of the level's space, a foreign one}, then a reconnect
 // (C01, C03, C05, C17 at the level of what is on the wire, which exchanges complete, and what is resent).
@@ -336,6 +386,11 @@ func TestGovcReplay(t *testing.T) {
 		return false
 	}
 	for _, levels := range [][]byte{{1}, {2}, {1, 1}, {2, 2}, {1, 2}, {2, 1, 2}, {1, 2, 1}} {
+		tried++
+		if bad := govcRunOfflineFirst(levels); bad != "" {
+			t.Logf("REPLAY: reproduced: %s", bad)
+			return
+		}
 		if recAcks(levels, nil) {
 			return
 		}
